@@ -182,6 +182,33 @@ def all_unordered_labellings(B):
     yield from rec(0, base)
 
 
+def check_default_costs(ctx, rng):
+    """Inputs built WITHOUT an explicit cost table use the documented defaults (speciation 0, everything else 1) - also
+    after the cost table of ANOTHER default-cost input was tuned in place (the tables must not be shared)."""
+    from superrec2.model.reconciliation import NodeEvent, EdgeEvent
+
+    Gn, Sn, lm = gen.random_input(rng, 5, 4, min_obj=2)
+    first = bridge.Built({"kind": "eval", "G": Gn, "S": Sn, "leafmap": lm, "costs": None})
+    first.inp.costs[NodeEvent.DUPLICATION] = rng.choice([3, 5])
+    first.inp.costs[EdgeEvent.FULL_LOSS] = rng.choice([0, 2])
+    Gn2, Sn2, lm2 = gen.random_input(rng, 5, 4, min_obj=2)
+    syn = gen.random_syntenies(rng, list(lm2), 3, ordered=True, consistent_p=1.0)
+    case = {"kind": "eval", "G": Gn2, "S": Sn2, "leafmap": lm2, "costs": None, "syn": syn, "history": "another default-cost input had its cost table tuned in place before"}
+    B = bridge.Built(case)
+    B.c = dict(gen.DEFAULT)  # the documented defaults are what the model uses
+    got = bridge.costs_of(B.inp)
+    ctx.count("mon.default_costs")
+    ctx.count("evaluations")
+    if got != {k: v for k, v in gen.DEFAULT.items()}:
+        ctx.viol("C06.total", case, f"an input built without a cost table has costs {got}, the documented defaults are {gen.DEFAULT}")
+        return
+    for m in dtl.some_recs(B.G, B.S, B.leafmap, 6, rng):
+        check_one(ctx, case, B, m)
+        exts = label.linear_extensions([tuple(s) for s in syn.values()])
+        check_one(ctx, case, B, m, random_ordered_labelling(rng, B, rng.choice(exts)), True)
+        check_one(ctx, case, B, m, random_unordered_labelling(rng, B), False)
+
+
 def canaries(ctx):
     case = {"G": [["g0", "g1"], "g2"], "S": [["A", "B"], "C"], "leafmap": {"g0": "A", "g1": "A", "g2": "C"}, "costs": dict(gen.DEFAULT),
             "syn": {"g0": ["f0", "f1", "f2"], "g1": ["f0", "f2"], "g2": ["f0", "f1", "f2"]}}
@@ -261,6 +288,8 @@ def run(ctx, spec):
                 check_one(ctx, case, B, m)
                 check_one(ctx, case, B, m, random_ordered_labelling(rng, B, rng.choice(exts)), True)
                 check_one(ctx, case, B, m, random_unordered_labelling(rng, B), False)
+        for _ in range(max(3, spec["count"] // 10)):
+            check_default_costs(ctx, rng)
         for _ in range(spec["count"]):
             Gn, Sn, lm = gen.random_input(rng, spec["max_obj"], spec["max_sp"], min_obj=2)
             c = gen.random_cost(rng, coherent_only=False)
@@ -336,7 +365,21 @@ def check_cli(ctx, case):
 def replay(ctx, case):
     if case["kind"] == "cli":
         return check_cli(ctx, case)
+    if case.get("costs") is None:
+        # default-cost history case: re-create the history (another default-cost input tuned in place) first
+        from superrec2.model.reconciliation import NodeEvent, EdgeEvent
+
+        first = bridge.Built({"kind": "eval", "G": ["g0", "g1"], "S": ["A", "B"], "leafmap": {"g0": "A", "g1": "B"}, "costs": None})
+        first.inp.costs[NodeEvent.DUPLICATION] = 3
+        first.inp.costs[EdgeEvent.FULL_LOSS] = 2
     B = bridge.Built({k: v for k, v in case.items() if k not in ("mapping", "labelling", "ordered")})
+    if case.get("costs") is None:
+        B.c = dict(gen.DEFAULT)
+        got = bridge.costs_of(B.inp)
+        if got != dict(gen.DEFAULT):
+            ctx.viol("C06.total", case, f"an input built without a cost table has costs {got}, the documented defaults are {gen.DEFAULT}")
+        if "mapping" not in case:
+            return
     m = {int(k): v for k, v in case["mapping"].items()}
     lab = None
     if "labelling" in case:
